@@ -37,6 +37,9 @@ pub enum Ty {
 	Vec3,
 	SpeedSame,
 	SpeedCross,
+	/// the tweener modulator (the same logic, duplicated in modulator/tweener.rs), driven through
+	/// its handle and the public Modulator trait
+	Tweener,
 }
 
 #[derive(Clone, Copy, Debug, Serialize, Deserialize, PartialEq)]
@@ -91,7 +94,7 @@ fn gen_case(seed: u64, tier: Tier) -> Case {
 	let ty = if envelope {
 		Ty::Db
 	} else {
-		*rng.pick(&[Ty::F64, Ty::F64, Ty::F64, Ty::F32, Ty::Db, Ty::Pan, Ty::Rate, Ty::Mix, Ty::Dur, Ty::Vec3, Ty::SpeedSame, Ty::SpeedCross])
+		*rng.pick(&[Ty::F64, Ty::F64, Ty::F64, Ty::F32, Ty::Db, Ty::Pan, Ty::Rate, Ty::Mix, Ty::Dur, Ty::Vec3, Ty::SpeedSame, Ty::SpeedCross, Ty::Tweener, Ty::Tweener])
 	};
 	let n = rng.urange(6, if tier == Tier::Quick { 60 } else { 200 });
 	let dyadic = rng.chance(0.4);
@@ -297,6 +300,26 @@ fn make_speed_driver(initial: f64, cross: bool) -> Driver {
 	}
 }
 
+fn make_tweener_driver(initial: f64) -> Driver {
+	use kira::modulator::{tweener::TweenerBuilder, ModulatorBuilder};
+	use std::{cell::RefCell, rc::Rc};
+	let id = MockInfoBuilder::new().add_modulator(0.0);
+	let (m, handle) = TweenerBuilder { initial_value: initial }.build(id);
+	let m = Rc::new(RefCell::new(m));
+	let handle = Rc::new(RefCell::new(handle));
+	Driver {
+		update: Box::new(move |dt, info| {
+			let mut m = m.borrow_mut();
+			let previous = m.value();
+			// (commands are read at the start of a callback, like Parameter::set followed by update)
+			m.on_start_processing();
+			m.update(dt, info);
+			(m.value(), previous, false)
+		}),
+		set: Box::new(move |v, tween| handle.borrow_mut().set(v, tween)),
+	}
+}
+
 fn project_initial(ty: Ty, v: f64) -> f64 {
 	match ty {
 		Ty::F32 | Ty::Db | Ty::Pan | Ty::Mix | Ty::Vec3 => v as f32 as f64,
@@ -335,6 +358,7 @@ pub fn run_case(case: &Case) -> CaseResult {
 		Ty::Vec3 => make_driver::<glam::Vec3>(case.initial),
 		Ty::SpeedSame => make_speed_driver(case.initial, false),
 		Ty::SpeedCross => make_speed_driver(case.initial, true),
+		Ty::Tweener => make_tweener_driver(case.initial),
 	};
 	let eps = if single_precision(case.ty) {
 		1e-5
